@@ -8,7 +8,7 @@ OUT=seeded/MATRIX.txt
 [ $# -eq 0 ] && : > $OUT
 for id in $IDS; do
   prop=${id:0:3}
-  r=$(scripts/try_seeded.sh $id seeded/$id $prop 2>&1 | grep -v '^$\|conda')
+  r=$(scripts/try_seeded.sh $id "$(pwd)/seeded/$id" $prop 2>&1 | grep -v '^$\|conda')
   line=$(echo "$r" | head -1 | sed 's/; C[0-9]* tier=quick seed=1://')
   sigs=$(echo "$r" | grep 'signature:' | sed 's/.*signature: //' | sort -u | tr '\n' ' ')
   echo "$line | $sigs" | tee -a $OUT
